@@ -136,22 +136,33 @@ mod harnesses {
         }
     }
 
-    /// C12: the handle returned by Entry::insert designates the element: a write through it is seen by get
-    /// (symbolic choice among: a key in the old table, a key in the main table, an absent key)
+    /// C12: the handle returned by Entry::insert on a key that is still in the old table designates the element:
+    /// a write through it is seen by get (concrete)
     #[kani::proof]
     #[kani::unwind(10)]
-    fn api_entry_insert_split() {
+    fn api_entry_insert_old_key() {
         let mut m = split_map(0);
-        let (ko, km) = (old_table_key(&m), main_table_key(&m));
-        let c: u8 = kani::any();
-        kani::assume(c < 3);
-        let k = if c == 0 { ko } else if c == 1 { km } else { 8 };
+        let k = old_table_key(&m);
         {
             let mut h = m.entry(k).insert(1);
             *h.get_mut() = 9;
         }
         assert!(m.get(&k) == Some(&9));
-        assert!(m.len() == if k == 8 { 9 } else { 8 });
+        assert!(m.len() == 8);
+    }
+
+    /// C12: Entry::insert on an absent key while a resize is pending (the insertion also carries): the handle
+    /// designates the new element (concrete)
+    #[kani::proof]
+    #[kani::unwind(10)]
+    fn api_entry_insert_absent_key() {
+        let mut m = split_map(0);
+        {
+            let mut h = m.entry(8).insert(1);
+            *h.get_mut() = 9;
+        }
+        assert!(m.get(&8) == Some(&9));
+        assert!(m.len() == 9);
     }
 
     /// C08: iterating a split map yields each element once, with exact length at every step, and is fused
